@@ -11,7 +11,7 @@ use serde_json::{json, Value};
 pub fn meta() -> Meta {
     Meta {
         level: "exploration",
-        rule: "target x value decision table: every scalar type spelling of the tier (9 base types x widths {none, 8, 32, 64}, const and non-const) as target of a declaration with initializer and of an assignment, with the value given as each literal form (int, negative int, float, negative float, imaginary int/float, bool, bit strings, duration), as variable and const variable of each type, as explicit cast to each type, as call of a subroutine returning each type, as measurement of a qubit and of a register, and as arithmetic expression over every pair of numeric operand types and 4 operators; on every expression node of the graph the node-level typing rules are checked, on every declaration/assignment the 'equal up to const or diagnosed' rule and the must-diagnose rule; non-trivial = programs whose value type differs from the target type; outcomes = distinct (value type, outcome) pairs",
+        rule: "target x value decision table: every scalar type spelling of the tier (9 base types x widths {none, 8, 32, 64}, const and non-const) as target of a declaration with initializer and of an assignment, with the value given as each literal form (int, negative int, float, negative float, imaginary int/float, bool, bit strings, duration), as variable and const variable of each type, as explicit cast to each type, as call of a subroutine returning each type, as measurement of a qubit and of a register, and as arithmetic expression over every pair of numeric operand types and 10 operators (+ - * / % << >> & | ^); on every expression node of the graph the node-level typing rules are checked, on every declaration/assignment the 'equal up to const or diagnosed' rule and the must-diagnose rule; non-trivial = programs whose value type differs from the target type; outcomes = distinct (value type, outcome) pairs",
         assumptions: vec![
             "the common type of an arithmetic node is the library's own implicit_cast_type of the operand types (whether that function is a correct join is C20)",
             "over-diagnosis of permitted widenings is not a violation",
@@ -117,11 +117,14 @@ pub fn value_forms(specs: &[TySpec]) -> Vec<(String, String, bool)> {
     let numeric: Vec<&TySpec> = specs.iter().filter(|t| matches!(t.ty, Type::Int(..) | Type::UInt(..) | Type::Float(..) | Type::Complex(..))).collect();
     for a in &numeric {
         for b in &numeric {
-            for op in ["+", "-", "*", "/"] {
+            for op in ["+", "-", "*", "/", "%", "<<", ">>", "&", "|", "^"] {
                 v.push((format!("v_{} {} v_{}", a.ident, op, b.ident), format!("arith:{}{}{}", a.spell, op, b.spell), false));
             }
         }
         v.push((format!("v_{} + 1", a.ident), format!("arith:{}+lit", a.spell), false));
+        v.push((format!("v_{} << 2", a.ident), format!("arith:{}<<lit", a.spell), false));
+        v.push((format!("1 >> v_{}", a.ident), format!("arith:lit>>{}", a.spell), false));
+        v.push((format!("v_{} & 3", a.ident), format!("arith:{}&lit", a.spell), false));
         v.push((format!("1.5 * v_{}", a.ident), format!("arith:flit*{}", a.spell), false));
         if a.lit.is_some() {
             v.push((format!("k_{} + k_{}", a.ident, a.ident), format!("arith:const{}+const", a.spell), false));
